@@ -231,7 +231,9 @@ impl FeatureState for TravelLimitState {
         true
     }
 
-    fn accept_insertion(&self, _: &mut SolutionContext, _: usize, _: &Job) {}
+    fn accept_insertion(&self, solution_ctx: &mut SolutionContext, route_index: usize, _: &Job) {
+        self.accept_route_state(solution_ctx.routes.get_mut(route_index).unwrap());
+    }
 
     fn accept_route_state(&self, route_ctx: &mut RouteContext) {
         if let Some(limit_duration) = (self.tour_duration_limit_fn)(route_ctx.route().actor.as_ref()) {
@@ -239,5 +241,10 @@ impl FeatureState for TravelLimitState {
         }
     }
 
-    fn accept_solution_state(&self, _: &mut SolutionContext) {}
+    fn accept_solution_state(&self, solution_ctx: &mut SolutionContext) {
+        // NOTE: limit has to be present independently on the way how route state was updated last time
+        solution_ctx.routes.iter_mut().filter(|route_ctx| route_ctx.is_stale()).for_each(|route_ctx| {
+            self.accept_route_state(route_ctx);
+        })
+    }
 }
